@@ -297,7 +297,12 @@ def gr_zero_to_one_impl(
     logical_rows = spec.get_int_constant(constant_id="logical_rows")
     row_separation = spec.get_float_constant(constant_id="row_separation")
     col_separation = spec.get_float_constant(constant_id="col_separation")
-    shift = col_separation * spec.get_float_constant(constant_id="code_size")
+    gate_spacing = spec.get_float_constant(constant_id="gate_spacing")
+    # distance between the logical blocks GR0 and GR1: `code_size` gate columns,
+    # each `gate_spacing + col_separation` apart
+    shift = (gate_spacing + col_separation) * spec.get_int_constant(
+        constant_id="code_size"
+    )
 
     shifts = ilist.IList(
         [
